@@ -470,7 +470,8 @@ def r_string_chunks(chunks, quote, style):
     out = []
     for kind, v in chunks:
         if kind == "n":
-            out.append("<" + r_expr(v, style) + ">")
+            inner = r_expr(v, style)
+            out.append("<" + inner + (" " if inner.endswith(">") else "") + ">")
         else:
             body = "".join(r_char(c) if (c in "\n\r\t\\" or ord(c) < 0x20 or c == quote) else c for c in v)
             out.append(quote + body + quote)
@@ -501,13 +502,16 @@ def r_stmt(st, style=PLAIN, indent=""):
             d = style.rnd.choice(SYN_OF[d])
         words = ("," + style.sp(" ")).join(r_expr(e, style) for e in st.exprs)
         first = st.exprs[0] if st.exprs else None
-        if st.d == ".word" and st.exprs and style.p(style.implicit_word) and first[0] == "num" and first[1] >= 0 and \
-                (len(st.exprs) > 1 or True):
+        if st.d == ".word" and st.exprs and style.p(style.implicit_word) and first[0] == "num" and first[1] >= 0 and words[0].isdigit():
+            # an implicit word list must start with a digit: a line starting with '^', '(', '<', '-' ... would be parsed as the
+            # continuation of the previous statement's last expression (newlines are plain whitespace to the parser)
             body = words
         else:
             body = style.caseflip(d) + (style.sp(" ") + words if words else "")
     elif k == "wordlist":
         body = ("," + style.sp(" ")).join(r_expr(e, style) for e in st.exprs)
+        if not body[:1].isdigit():
+            body = style.caseflip(".word") + " " + body
     elif k == "str":
         body = style.caseflip(st.d) + style.sp(" ") + r_string_chunks(st.chunks, st.quote, style)
     elif k == "blk":
